@@ -216,7 +216,9 @@ def run_once(spec, plan):
     # every run starts from the same registries: the by-name printer of BaseByName is pending again
     R = registry.get()
     R.restore()
-    R.pp._DEFERRED_DISPATCH_BY_NAME.update(DEFERRED)
+    from prettyprinter import register_pretty
+    for name, fn in DEFERRED.items():
+        register_pretty(name)(fn)          # public API: registered by name, pending until first use
     STATE['i'] = -1
     STATE['plan'] = plan
     STATE['fired'] = 0
